@@ -225,6 +225,60 @@ class DryRun(object):
             shutil.rmtree(root, ignore_errors=True)
 
 
+class RealSizeLimit(object):
+    name = 'real-write-failures'
+    describe = ('write failures made by the operating system, not by a patched os.write: RLIMIT_FSIZE (with SIGXFSZ ignored: a '
+                'short write followed by EFBIG) at 0, 10, half, length-1 and length+100 octets x writer x fresh / existing '
+                'destination x short / large / non-ASCII text: reaches the writes of a buffered file object as well as os.write()')
+
+    def blocks(self, tier):
+        return [{'w': w} for w in ('file', 'file.json', 'py.nocompile')]
+
+    def cases(self, block, tier):
+        for dest in ('absent', 'old-content'):
+            for data in ('short', 'big', 'non-ascii'):
+                for lim in ('0', '10', 'half', 'len-1', 'len+100'):
+                    yield {'w': block['w'], 'dest': dest, 'data': data, 'limit': lim}
+
+    def run_case(self, case):
+        import resource
+        import signal
+        root = scratch()
+        try:
+            _, fname = make_writer(case['w'], root)
+            d = prepare(root, case['dest'], fname)
+            before = faultfs.snapshot(root)
+            w, fname = make_writer(case['w'], d)
+            data = DATA[case['data']]
+            n = len(data.encode('utf-8'))
+            limit = {'0': 0, '10': 10, 'half': n // 2, 'len-1': n - 1, 'len+100': n + 100}[case['limit']]
+            soft, hard = resource.getrlimit(resource.RLIMIT_FSIZE)
+            old_handler = signal.signal(signal.SIGXFSZ, signal.SIG_IGN)
+            exc = None
+            try:
+                resource.setrlimit(resource.RLIMIT_FSIZE, (limit, hard))
+                try:
+                    w.putData(MODNAME, data)
+                except BaseException as e:  # noqa
+                    exc = e
+            finally:
+                resource.setrlimit(resource.RLIMIT_FSIZE, (soft, hard))
+                signal.signal(signal.SIGXFSZ, old_handler)
+            after = faultfs.snapshot(root)
+
+            class Rec(object):
+                injected = [(0, 'os.write', 'EFBIG-at-%s' % case['limit'])] if limit < n else []
+            problems = judge_fs(d, fname, before, after, root, data, exc, Rec(), False, case['w'])
+            if limit >= n and exc is not None:
+                problems.append(('failed-below-the-limit', repr(exc)))
+            if limit < n and n and exc is None:
+                problems.append(('returned-normally-although-the-text-cannot-be-stored', 'limit %d, text %d octets' % (limit, n)))
+            vs = [('C13|real-limit|%s|%s' % (case['w'], p_), '%s\ncase %r' % (det, case)) for p_, det in problems]
+            return ('raised:%s' % type(exc).__name__ if exc else 'ok'), vs, 1
+        finally:
+            shutil.rmtree(root, ignore_errors=True)
+
+
 class TwoWriters(object):
     case_timeout = 600
     name = 'two-writers'
@@ -399,4 +453,4 @@ class TwoWritersOneFault(object):
         return 'schedules=%d runs=%d' % (len(schedules), counters['runs']), vs, (counters['steps'], counters['runs'])
 
 
-FAMILIES = [SingleWriter(), DryRun(), TwoWriters(), TwoWritersOneFault()]
+FAMILIES = [SingleWriter(), DryRun(), TwoWriters(), TwoWritersOneFault(), RealSizeLimit()]
